@@ -103,6 +103,7 @@ INFO = {
         'histories with lowered SQL batch / strategy thresholds + bulk-vs-single comparison cases + adjunct helper '
         'enumeration; ' + HIST_RULE,
         800,
+        run_limit_s=400,
     ),
     'C17': _p(
         'fault_enumeration',
